@@ -170,7 +170,7 @@ pub fn run(args: &[String]) -> i32 {
                         writeln!(
                             w,
                             "{}",
-                            json!({"kind": kind, "route": route, "c": c, "l": v["l"], "cs": v["cs"], "s": row[0],
+                            json!({"kind": kind, "route": route, "c": c, "l": v["l"], "cs": v["cs"], "nt": v["nt"], "s": row[0],
                                    "want": {"trim": want_t, "case": row[5]},
                                    "got": {"trim": got_t[i], "case": got_c[i], "outcome": outcome,
                                            "stderr": r.stderr_str().chars().take(300).collect::<String>()},
